@@ -7,7 +7,75 @@ pub struct C11;
 
 const NAMES: [&str; 8] = ["a", "a.key", "a.val", "A", "m1", "m10", "b", "a.htx"];
 
+/// many maps of one key type in one directory (tables of open maps, file descriptors, ...)
+fn many_maps_strategy(tier: Tier, _index: u64) -> BoxedStrategy<History> {
+    let n = tier.pick(66usize..=110, 66..=300);
+    (
+        proptest::sample::select(Kt::ALL.to_vec()),
+        n,
+        proptest::collection::vec(any::<bool>(), 300),
+        any::<bool>(),
+    )
+        .prop_flat_map(move |(kt, n, lates, clone_first)| {
+            let mut w = Weights::basic();
+            w.handles = 45;
+            w.put = 30;
+            w.get = 15;
+            w.del = 5;
+            w.dbsync = 2;
+            w.sync = 2;
+            let cfg = OpsCfg {
+                w,
+                val: ValProfile::Small,
+                n_ops: tier.pick(100..=500, 100..=1500),
+                reopen_params: None,
+                reopen_child: false,
+                max_batch: 0,
+                n_maps: n,
+            };
+            let p0 = Params::plain(Buckets::BucketsSize(8));
+            (
+                Just((kt, n, lates, clone_first)),
+                keys_strategy(kt, KeyProfile::Short, 2..=4),
+                ops_strategy(&cfg, 4, p0),
+            )
+        })
+        .prop_map(|((kt, n, lates, clone_first), keys, ops)| {
+            let p0 = Params::plain(Buckets::BucketsSize(8));
+            let maps: Vec<MapSpec> = (0..n)
+                .map(|i| MapSpec {
+                    name: format!("t{i:03}"),
+                    kt,
+                    params: p0,
+                    keys: keys.clone(),
+                    late: i > 0 && lates[i % lates.len()],
+                })
+                .collect();
+            let mut ops = ops;
+            if clone_first {
+                ops.insert(0, Op::CloneDb);
+            }
+            // first touch every map once (so that all of them are open), in a generated order
+            let mut pre: Vec<Op> = Vec::new();
+            for i in 0..n {
+                pre.push(Op::Use { m: i as u16 });
+                pre.push(Op::Put { k: (i % 3) as u32, v: Val::P { len: 3, seed: i as u32 } });
+            }
+            pre.extend(ops);
+            History {
+                maps,
+                ops: pre,
+                obs: Obs::default(),
+                excluded: 0,
+            }
+        })
+        .boxed()
+}
+
 fn strategy(tier: Tier, index: u64) -> BoxedStrategy<History> {
+    if index % 25 == 7 {
+        return many_maps_strategy(tier, index);
+    }
     let nmaps = 2usize..=5;
     let spec = (
         proptest::sample::select(Kt::ALL.to_vec()),
